@@ -36,10 +36,18 @@ func (p *BinaryProtocol) SkipNative(fieldType Type, maxDepth int) (err error) {
 	}
 	fsm := types.NewTStateMachine()
 	ret := native.TBSkip(fsm, &p.Buf[p.Read], left, uint8(fieldType))
+	types.FreeTStateMachine(fsm)
 	if ret < 0 {
-		return
+		// NOTICE: native skip failed (-1: invalid type tag, -2: EOF, -3: stack overflow), must report it
+		switch ret {
+		case -2:
+			return io.EOF
+		case -3:
+			return errExceedDepthLimit
+		default:
+			return errInvalidDataType
+		}
 	}
 	p.Read += int(ret)
-	types.FreeTStateMachine(fsm)
 	return nil
 }
